@@ -195,7 +195,7 @@ theorem rx_body (e : Env F) (u : Cell) (hu : inside e.h e.w u = true) (mst : ASt
           ilsimp [rx5, st4, st3, st2, st1, hst, hc.s_open, hc.s_g, hc.s_f, hc.s_py, hc.s_px, rv1, rv2, hov, hc.gy,
             hc.gx, getD_set_same _ _ _ _ hlt, afterBody, hinv.py, hinv.px]
           refine ⟨(hinv.const_frame ?_ ?_ ?_ ?_ ?_ ?_).1,
-            ha.relaxed u v hu hin dval (Fl.add dval (flDist v e.goal)) ?_ ?_ ?_ ?_ ?_ ?_, ?_, ?_⟩
+            ha.relaxed u v hu hin hc.start_in dval (Fl.add dval (flDist v e.goal)) ?_ ?_ ?_ ?_ ?_ ?_, ?_, ?_⟩
           all_goals first
             | rfl
             | keep_tac
